@@ -291,6 +291,14 @@ def class_addend(ctx):
         for st in blk["stmts"]:
             if st["k"] == "assign" and st["rv"]["k"] == "agg" and st["rv"].get("variant") == "Some" and "CharacterClassBuilder" in b.locals[st["place"]["l"]]["ty"]:
                 aggs.append((bi, show(se.ev.rvalue(st["rv"], se.local_value))))
+                # `Some(match addend { Some(a) => a.union(x), None => x })`: one store whose payload has several
+                # definitions - each of them is what one of the separate stores held
+                f0 = (st["rv"].get("fields") or [None])[0]
+                if f0 and f0.get("k") in ("copy", "move") and not f0["place"]["p"]:
+                    defs = _assigned_values(ctx, b, f0["place"]["l"])
+                    if len(defs) > 1:
+                        for bj, v in defs:
+                            aggs.append((bj, show(v)))
     kinds = set()
     for bi, s in aggs:
         if "CharacterClassBuilder::union(" in s:
@@ -547,7 +555,7 @@ def case_notion_agree(ctx):
     return out
 
 
-@rule("LEAF-DOT", ["C12"], floor=2)
+@rule("LEAF-DOT", ["C12", "C01"], floor=2)
 def leaf_dot(ctx):
     """'.' = every character with flag s; every character except U+000A and U+000D without it."""
     P = "re_compiler::ReCompiler::parse_terminal"
